@@ -51,7 +51,7 @@ package dialvia
 //@ trusted
 //@ pure
 //@ ensures result != nil && fresh(result)
-//@ func (*http.Request).Write, (*bufio.Writer).Flush, maps.Copy
+//@ func (*http.Request).Write, maps.Copy
 //@ trusted
 //@ modifies *
 //@ preserves HTTPProxyDialer.* url.URL.*
